@@ -4,12 +4,18 @@ other styles in between), multi-frame sources whose frames differ in mode and al
 TIFF: RGB / RGBA / LA / L / 1 / CMYK pages; GIF: first frame P with a transparent index, later frames
 RGBA), frames selected with seek() in any order or yielded by the image iterator, the transparency
 setting given explicitly or through a format specifier ('#', '#.5', '#rrggbb' incl. all-decimal and
-exponent-shaped colours), the same colour / size requested repeatedly.
+exponent-shaped colours), the same colour / size requested repeatedly; SOURCE FORMATS behind a lazy,
+configurable decoder (JPEG stills in RGB / L / CMYK, two-frame MPO), handed over as a file path, as a PIL
+image decoding lazily from memory, or as a file-backed PIL image the caller opened but never loaded, and
+rendered at 1/1, 1/2, 1/4, 1/8 of their pixel size in every order (thumbnail first, then pixel-for-pixel).
 
 A sequence case is a render case of harness/impl/impl_render.py with "instances" and "session" (see the
 driver).  Every block render handed out is judged by ITS OWN request: like a single render, against the
-source pixels of the frame its own history selects (exact composite oracle at render resolution), and
-against equal requests of the same sequence (model/BlockSeqTie.v: qcheck, evaluated inside Coq)."""
+source pixels of the frame its own history selects (exact composite oracle at render resolution; off render
+resolution, for frames without an alpha channel, against the FULL fresh decode converted and BOX-resampled
+to render resolution -- "the image at render resolution"), and against equal requests of the same sequence
+(model/BlockSeqTie.v: qcheck, evaluated inside Coq).  After every sequence each PIL image the caller handed
+in must still decode to its full-size pixels (model/BlockSeqSrc.v: the source objects stay intact)."""
 from __future__ import annotations
 
 import copy
@@ -78,7 +84,99 @@ def gen_img(rng, size):
     return gen_still(rng, size)
 
 
+LAZY_SIZES = [[8, 8], [16, 8], [16, 16], [8, 16], [32, 16], [24, 16], [16, 32]]
+LAZY_SOURCES = ["file", "pil", "pil-file", "pil-file"]
+
+
+def gen_lazy_img(rng, big=False):
+    """A source behind a lazy / configurable decoder: a JPEG still (RGB, L, CMYK) or a two-frame MPO, of a
+    size whose 1/2, 1/4, 1/8 scale renders are whole numbers of cells."""
+    size = rng.choice(LAZY_SIZES + ([[32, 32], [64, 48]] if big else []))
+    opts = {"quality": rng.choice([90, 92, 95, 95, 98, 100])}
+    if rng.random() < 0.4:
+        opts["subsampling"] = rng.choice([0, 1, 2])
+
+    def still(mode):
+        return {"mode": mode, "size": list(size), "seed": rng.randrange(1 << 30),
+                "kind": rng.choice(["runs", "random", "random", "alpha-flip", "bands"]), "alphas": [255]}
+    if rng.random() < 0.3:
+        return {"pages": [still("RGB"), still("RGB")], "container": "mpo", **opts}
+    return {**still(rng.choice(["RGB", "RGB", "RGB", "L", "CMYK"])), "container": "jpeg", **opts}
+
+
+def lazy_scales(size):
+    """Render sizes in cells at 1/1 .. 1/8 of the pixel size (whole cells only)."""
+    w, h = size
+    return [[w // d, h // (2 * d)] for d in (1, 2, 4, 8) if w % d == 0 and h % (2 * d) == 0]
+
+
+def img_size(img):
+    return img["pages"][0]["size"] if "pages" in img else img["size"]
+
+
+def gen_lazy_sequence(rng, big=False):
+    """Renders of lazily decoded sources at several scales in one process: small first and then at the
+    pixel size, the other way round, repeatedly; one or two instances (another instance of the same
+    image / the same file through another kind of source)."""
+    insts = []
+    for _ in range(rng.choice([1, 1, 2])):
+        if insts and rng.random() < 0.5:
+            inst = copy.deepcopy(insts[0])
+            inst["cls"], inst["source"] = rng.choice(BLOCK_CLASSES), rng.choice(LAZY_SOURCES)
+        else:
+            img = gen_lazy_img(rng, big)
+            inst = {"cls": rng.choice(["block", "block", "sub", "subsub"]), "img": img, "source": rng.choice(LAZY_SOURCES),
+                    "cells": rng.choice(lazy_scales(img_size(img))[1:] or lazy_scales(img_size(img)))}
+        insts.append(inst)
+    case = {"style": "block", "cells": [1, 1], "img": dict(DUMMY), "alpha": None, "args": {}, "cell_size": [1, 2],
+            "term_bg": rng.choice(TERM_BGS), "on_kitty": rng.random() < 0.2, "instances": insts, "session": []}
+    for _ in range(rng.choice([2, 3, 3, 4, 5])):
+        k = rng.randrange(len(insts))
+        inst = insts[k]
+        scales = lazy_scales(img_size(inst["img"]))
+        alpha = rng.choice([None, None, "#", "#102030", 0.5, DEFAULT_ALPHA])
+        step = {"inst": k, "alpha": alpha, "args": {}, "want_source_pixels": True}
+        r = rng.random()
+        if r < 0.45:
+            step["size"] = list(scales[0])  # the image's own pixel size: pixel-for-pixel
+        elif r < 0.85:
+            step["size"] = list(rng.choice(scales))
+        elif r < 0.92:
+            step["size"] = [rng.randint(1, scales[0][0]), rng.randint(1, scales[0][1])]  # not a whole fraction
+        pages = inst["img"].get("pages")
+        if pages and rng.random() < 0.6:
+            step["seek"] = rng.randrange(len(pages))
+        via = rng.choice(["renderer", "renderer", "format", "str"] + (["iter"] if pages else []))
+        step["via"] = via
+        if via == "str":
+            step["alpha"] = DEFAULT_ALPHA
+        elif via in ("format", "iter"):
+            a = alpha_spec(alpha)
+            if a is None:
+                a, step["alpha"] = "", DEFAULT_ALPHA
+            step["spec"] = "1.1" + a
+            if via == "iter":
+                step["frames"] = rng.choice([[0, 1], [0, 1, 0], [0, 0, 1]])
+                step.pop("seek", None)
+        case["session"].append(step)
+    return finalize(case)
+
+
+def finalize(case):
+    """Every sequence: the world also holds, off render resolution, the frames without an alpha channel
+    (full fresh decode, converted + BOX-resampled); the caller's PIL images are examined afterwards."""
+    case["check_caller_sources"] = True
+    for st in case["session"]:
+        if st.get("want_source_pixels"):
+            st["want_resampled_pixels"] = True
+    return case
+
+
 def gen_sequence(rng):
+    return finalize(_gen_sequence(rng))
+
+
+def _gen_sequence(rng):
     w, h = rng.choice([1, 2, 3, 4, 6, 8]), rng.choice([1, 1, 2, 3])
     sizes = [[w, h]] + ([[rng.choice([1, 2, 3, 5]), rng.choice([1, 2])]] if rng.random() < 0.3 else [])
     colours = rng.sample(COLOURS, 2)
@@ -157,7 +255,7 @@ def _seq(insts, steps, **kw):
         s.setdefault("args", {})
         if insts[s["inst"]]["cls"] in BLOCK_CLASSES:
             s.setdefault("want_source_pixels", True)
-    return copy.deepcopy(c)
+    return finalize(copy.deepcopy(c))
 
 
 def corpus():
